@@ -29,7 +29,11 @@ SStep(st, e, t) ==
        ELSE IF e.exc # 0 THEN Bad(st, "server raised into the receive path")
        ELSE IF ~j.ok THEN Bad(st, j.why)
        ELSE IF j.free
-         THEN Good([sv |-> j.sv, buf |-> j.buf, store |-> Adopt(st.store, od, e.chg)])
+         \* an out-of-protocol frame is owed one well-formed response and nothing else: the stored
+         \* values change only through an accepted download
+         THEN IF e.chg # <<>> THEN Bad(st, "an out-of-protocol frame changed the stored value")
+              ELSE IF e.wcb # <<>> THEN Bad(st, "an out-of-protocol frame triggered a write callback")
+              ELSE Good([sv |-> j.sv, buf |-> j.buf, store |-> st.store])
        ELSE IF j.wcb = <<>>
          THEN IF e.chg # <<>> THEN Bad(st, "store changed without an accepted download")
               ELSE IF e.wcb # <<>> THEN Bad(st, "write callback invoked without an accepted download")
